@@ -544,8 +544,20 @@ func (p *Prop) Execute(c *sim.Case, env *sim.Env) *sim.Result {
 	zzsimrt.Enter(t)
 	defer zzsimrt.Leave()
 	chunks, embs := makeChunks(&sp)
+	// exporting reads the chunks; it is not supposed to edit them (a later export or any
+	// other use of the same collection would see the edit)
+	snap := sim.Dump(chunks)
 	cfg := config(&sp)
 	var failClass, failDetail string
+	done := func() *sim.Result {
+		if failClass == "" && sp.Op != "filter" {
+			if now := sim.Dump(chunks); now != snap {
+				a, b := sim.DiffContext(snap, now)
+				failClass, failDetail = sp.Op+":input-edited", fmt.Sprintf("the operation changed the chunks it was given\n  before: %s\n  after:  %s", a, b)
+			}
+		}
+		return finish(res, &sp, c, t, failClass, failDetail)
+	}
 	fail := func(class, detail string) {
 		if failClass == "" {
 			failClass, failDetail = class, detail
@@ -581,7 +593,7 @@ func (p *Prop) Execute(c *sim.Case, env *sim.Env) *sim.Result {
 		return b.Bytes()
 	}
 	if _, ok := guard(func() error { refOut = refExport(); return nil }); !ok {
-		return finish(res, &sp, c, t, failClass, failDetail)
+		return done()
 	}
 	sink := &simWriter{kind: sp.Sink.Kind}
 	if sp.Sink.Kind == "fail-after" || sp.Sink.Kind == "fail-once" {
@@ -796,7 +808,7 @@ func (p *Prop) Execute(c *sim.Case, env *sim.Env) *sim.Result {
 	case "filter":
 		p.filterCheck(&sp, chunks, fail, guard)
 	}
-	return finish(res, &sp, c, t, failClass, failDetail)
+	return done()
 }
 
 func finish(res *sim.Result, sp *Spec, c *sim.Case, t *zzsimrt.Task, failClass, failDetail string) *sim.Result {
